@@ -801,6 +801,10 @@ def modelable(c):
         return False
     if "exc" in c and c["exc"] not in ERRS:
         return False
+    if c["kind"] == "prefixes" and "exc" in c and own_diff_prefix_attr(c) and own_diff_prefix_msg(oracle_C08_msg(c)):
+        # the recorded finding own-diff-prefix-... in its raising form (lxml resolves a step diff:name against the
+        # formatter's binding of the prefix): a behaviour of lxml's prefix handling the model does not have -- oracle only
+        return False
     for a in c["script"]:
         if getattr(a, "position", 0) is not None and isinstance(getattr(a, "position", 0), int) and getattr(a, "position", 0) < 0:
             return False
